@@ -170,8 +170,6 @@ Lemma cache_table_ok : forallb cache_entry_ok cache_reads = true.
 Proof. vm_compute. reflexivity. Qed.
 Lemma patch_table_ok : forallb patch_entry_ok patch_writes = true.
 Proof. vm_compute. reflexivity. Qed.
-Lemma callglobal_has_cachewords : has_cachewords OP_CallGlobal = true.
-Proof. vm_compute. reflexivity. Qed.
 
 Lemma grid_cachewords (f : func) (ip w : N) :
   verify_body f = VOk -> grid (f_code f) ip -> nthN (f_code f) ip = Some w ->
@@ -211,8 +209,12 @@ Lemma may_patch_wr (s : st) (w i n : N) :
   (n =? s_bclen s) && match lookup (w_op w) patch_writes with Some offs => memN i (map (N.add (s_ip s)) offs) | None => false end.
 Proof. reflexivity. Qed.
 Lemma may_patch_rd (s : st) (w i n : N) :
-  may s w (S_PATCH_RD, i, n) = (n =? s_bclen s) && (w_op w =? OP_CallGlobal) && (i =? s_ip s).
+  may s w (S_PATCH_RD, i, n) =
+  (n =? s_bclen s) && match lookup (w_op w) patch_reads with Some offs => memN i (map (N.add (s_ip s)) offs) | None => false end.
 Proof. reflexivity. Qed.
+
+Lemma patch_reads_ok : forallb patch_entry_ok patch_reads = true.
+Proof. vm_compute. reflexivity. Qed.
 
 Lemma patch_in_bounds_lemma (f : func) (s : st) (w : N) (i n : N) :
   verify_body f = VOk -> grid (f_code f) (s_ip s) -> nthN (f_code f) (s_ip s) = Some w ->
@@ -227,10 +229,13 @@ Proof.
     cbn [patch_entry_ok] in T. apply andb_true_iff in T as [T1 T2].
     pose proof (proj1 (forallb_forall _ _) T1 _ Ho) as Ho2. cbv beta in Ho2.
     pose proof (grid_cachewords f _ w V G Hw T2) as B. lia.
-  - apply andb_true_iff in M as [M Mi]. apply andb_true_iff in M as [Mn Mo].
-    apply N.eqb_eq in Mo.
-    assert (HC : has_cachewords (w_op w) = true) by (rewrite Mo; exact callglobal_has_cachewords).
-    pose proof (grid_cachewords f _ w V G Hw HC) as B. lia.
+  - apply andb_true_iff in M as [Mn M].
+    destruct (lookup (w_op w) patch_reads) as [offs|] eqn:L; [|discriminate].
+    apply memN_in in M. apply in_map_iff in M as [o [E Ho]].
+    pose proof (lookup_forallb patch_entry_ok patch_reads _ _ patch_reads_ok L) as T.
+    cbn [patch_entry_ok] in T. apply andb_true_iff in T as [T1 T2].
+    pose proof (proj1 (forallb_forall _ _) T1 _ Ho) as Ho2. cbv beta in Ho2.
+    pose proof (grid_cachewords f _ w V G Hw T2) as B. lia.
 Qed.
 
 (* ---- all runtime guards the argument below relies on are present in the source ----------------- *)
@@ -356,6 +361,26 @@ Proof.
   exact (checked_jump (env_of f) ip w cs F HJ).
 Qed.
 
+(* table facts tying the dispatch arms to the verifier: every arm that jumps is jump-checked, and the arms that
+   skip cache words are exactly the verifier's skip set *)
+Lemma dispatch_jumps_verified : forallb has_jump dispatch_jump_ops = true.
+Proof. vm_compute. reflexivity. Qed.
+
+Lemma skip_sets_agree : all_below (fun b => Bool.eqb (memN b dispatch_skip_ops) (existsb (N.eqb b) skip_opcodes)) 256 0 = true.
+Proof. vm_compute. reflexivity. Qed.
+
+Lemma w_op_lt (w : N) : w_op w < 256.
+Proof. unfold w_op. apply N.mod_lt. discriminate. Qed.
+
+Lemma disp_adv_is_adv (w : N) : disp_adv w = adv_of w.
+Proof.
+  unfold disp_adv, adv_of.
+  pose proof (all_below_spec _ _ _ skip_sets_agree (w_op w)) as S.
+  assert (E : Bool.eqb (memN (w_op w) dispatch_skip_ops) (existsb (N.eqb (w_op w)) skip_opcodes) = true)
+    by (apply S; [lia|pose proof (w_op_lt w); lia]).
+  apply eqb_prop in E. rewrite E. reflexivity.
+Qed.
+
 Lemma succ_on_grid (f : func) (ip t : N) :
   verify_body f = VOk -> grid (f_code f) ip -> In t (succs (f_code f) ip) ->
   t < len (f_code f) -> grid (f_code f) t.
@@ -363,11 +388,15 @@ Proof.
   intros V G Hin Ht. unfold succs in Hin.
   destruct (nthN (f_code f) ip) as [w|] eqn:Hw; [|destruct Hin].
   apply in_app_or in Hin as [Hin|Hin].
-  - destruct (has_jump (w_op w)) eqn:HJ; [|destruct Hin].
+  - destruct (memN (w_op w) dispatch_jump_ops) eqn:HJ; [|destruct Hin].
     destruct Hin as [<-|[]].
-    destruct (has_jump_checked f ip w V G Hw HJ) as [_ [E|G']]; [lia|exact G'].
-  - destruct (w_op w =? OP_Jump); [destruct Hin|].
-    destruct Hin as [<-|[]]. exact (grid_step _ ip w G Hw).
+    assert (HJ' : has_jump (w_op w) = true).
+    { apply memN_in in HJ. exact (proj1 (forallb_forall _ _) dispatch_jumps_verified _ HJ). }
+    destruct (has_jump_checked f ip w V G Hw HJ') as [_ [E|G']]; [lia|exact G'].
+  - apply in_app_or in Hin as [Hin|Hin].
+    + destruct (memN (w_op w) dispatch_redo_ops); [|destruct Hin]. destruct Hin as [<-|[]]. exact G.
+    + destruct (w_op w =? OP_Jump); [destruct Hin|].
+      destruct Hin as [<-|[]]. rewrite disp_adv_is_adv. exact (grid_step _ ip w G Hw).
 Qed.
 
 Lemma reach_grid (f : func) (ip : N) :
@@ -416,7 +445,7 @@ Proof.
   - inversion F as [|x l (Vb & HL & FI & G) Fr]; subst.
     constructor; [exact (entry_ok _ _ _ _ _ V)|]. constructor; [|exact Fr].
     unfold frame_ok. cbn [fr_fn fr_st set_ip s_ip s_bclen]. repeat split; try assumption.
-    intros _. exact (grid_step _ _ w (G (nthN_lt _ _ _ Hw)) Hw).
+    intros _. rewrite disp_adv_is_adv. exact (grid_step _ _ w (G (nthN_lt _ _ _ Hw)) Hw).
   - inversion F as [|x l _ Fr]; subst. constructor; [exact (entry_ok _ _ _ _ _ V)|exact Fr].
   - inversion F as [|x l _ Fr]; subst. inversion Fr as [|y l' Hc Fr']; subst.
     constructor; [|exact Fr']. rewrite resume_is_caller. destruct caller as [cf cs]. exact Hc.
@@ -447,6 +476,31 @@ Proof.
   pose proof (mreach_ok f _ V R) as F. inversion F as [|x l (Vb & HL & FI & G) Fr]; subst.
   exact (grid_in_bounds_lemma (fr_fn fr) (fr_st fr) w a Vb (G (nthN_lt _ _ _ Hw)) Hw HL FI HF).
 Qed.
+
+(* ---- raw-access census: every raw access found in the dispatch arms has its entry in the tables the footprint uses ---- *)
+Definition model_count (op kind : N) : N :=
+  if kind =? S_CACHE_RD then match lookup op cache_reads with Some (offs, _) => len offs | None => 0 end
+  else if kind =? S_PATCH_WR then match lookup op patch_writes with Some offs => len offs | None => 0 end
+  else if kind =? S_PATCH_RD then match lookup op patch_reads with Some offs => len offs | None => 0 end
+  else if kind =? S_CONST then match lookup op const_sites with Some _ => 1 | None => 0 end
+  else if kind =? S_UPVAL then match lookup op upval_sites with Some _ => 1 | None => 0 end
+  else if kind =? S_CALLSITE then (if op =? OP_CallGlobalMono then 1 else 0)
+  else 0.
+
+Definition in_census (op kind : N) : bool :=
+  existsb (fun e : N * N * N => (fst (fst e) =? op) && (snd (fst e) =? kind)) raw_census.
+
+Definition census_covered : bool :=
+  forallb (fun e : N * N * N => model_count (fst (fst e)) (snd (fst e)) =? snd e) raw_census
+  && forallb (fun e : N * (list N * bool) => in_census (fst e) S_CACHE_RD) cache_reads
+  && forallb (fun e : N * list N => in_census (fst e) S_PATCH_WR) patch_writes
+  && forallb (fun e : N * list N => in_census (fst e) S_PATCH_RD) patch_reads
+  && forallb (fun e : N * (bool * bool) => in_census (fst e) S_CONST) const_sites
+  && forallb (fun e : N * (N * bool) => in_census (fst e) S_UPVAL) upval_sites
+  && in_census OP_CallGlobalMono S_CALLSITE.
+
+Lemma census_covered_true : census_covered = true.
+Proof. vm_compute. reflexivity. Qed.
 
 (* ---- from_u8 (KF-C04-3 repaired) ------------------------------------------------------------------ *)
 Lemma from_u8_sweep : all_below (fun b => implb (from_u8_accepts b) (is_discriminant b)) 256 0 = true.
